@@ -3,7 +3,7 @@
 cd /verif
 # ORDER: space separated property ids to take first (the others follow), e.g. ORDER="C14 C15 C16 C17 C18 C19 C20"
 list=""
-for p in $ORDER; do list="$list $(ls -d seeded/$p-*/ 2>/dev/null)"; done
+for p in $ORDER; do list="$list $(ls -d seeded/$p-*/ 2>/dev/null | tr "\n" " ")"; done
 for d in seeded/*/; do case " $list " in *" $d "*) ;; *) list="$list $d";; esac; done
 for d in $list; do
   id=$(basename $d); prop=$(/venv/bin/python -c "import json;print(json.load(open('$d/meta.json'))['breaks_property'])")
